@@ -99,6 +99,14 @@ impl Parser {
             None => return Err(ProtocolError::Overflow),
         };
 
+        // A frame that announces more than the allowed size is refused as soon as its header is
+        // known, without waiting for (and buffering) its payload.
+        if length > max_size && src.len() < frame_len {
+            // drop what has arrived of the frame
+            src.clear();
+            return Err(ProtocolError::Overflow);
+        }
+
         // not enough data
         if src.len() < frame_len {
             let min_length = min(length, max_size);
